@@ -1025,6 +1025,11 @@ int vorbis_synthesis_lapout(vorbis_dsp_state *v,float ***pcm){
 
     v->pcm_current-=n1;
     v->pcm_returned-=n1;
+    /* a granule position that lies (damaged stream) can leave the
+       returned-sample index in the older half of the buffer; it must
+       not leave the buffer */
+    if(v->pcm_returned<0)v->pcm_returned=0;
+    if(v->pcm_current<v->pcm_returned)v->pcm_current=v->pcm_returned;
     v->centerW=0;
   }
 
